@@ -32,6 +32,8 @@ var verifCancelProgs = []verifCancelProg{
 	{"loop-in-callee", "fn spin() {\n  loop { }\n}\nfn main() {\n  spin();\n}\n", true, true},
 	{"loop-match", "fn main() {\n  let k = 1;\n  loop { match k { 1 => { k = 2; }, _ => { k = 1; } } }\n}\n", true, true},
 	{"loop-if-expr", "fn main() {\n  let k = 1;\n  loop { k = if k == 1 { 2 } else { 1 }; }\n}\n", true, true},
+	{"spawn-relay", "fn tick() {\n  spawn tick();\n}\nfn main() {\n  tick();\n}\n", true, false},
+	{"spawn-relay-looping-main", "fn tick() {\n  spawn tick();\n}\nfn main() {\n  tick();\n  loop { }\n}\n", true, false},
 	{"spawned-core", "fn w() {\n  loop { }\n}\nfn main() {\n  spawn w();\n  loop { }\n}\n", true, false},
 }
 
